@@ -458,17 +458,20 @@ def Descriptor.wfAllSeq (d : Descriptor) : Bool :=
      | _ => false)
   | _, _ => false
 
-/-- member-list attributes (`observers`, `foil_detectors`) and their alias (`sight_lines`) -/
+/-- member-list attributes (`observers`, `foil_detectors`) and their alias (`sight_lines`).  `atomic`: every element is
+type-checked before the first re-parenting, so a refused assignment changes nothing (`set_members_atomic`); a setter that
+checks inside the loop leaves the earlier elements re-parented — which, for an element that is a member of *another*
+group, breaks "every member's scene-graph parent is the group" over there. -/
 def Descriptor.wfMembers (tbl : List Descriptor) (d : Descriptor) : Bool :=
   d.getter == .memberList && d.getterFn == d.name &&
   match d.setter with
-  | some (.members m) => m.fnName == d.name && m.decTarget == d.name && m.kinds.contains .list
+  | some (.members m) => m.fnName == d.name && m.decTarget == d.name && m.kinds.contains .list && m.atomic
   | some (.alias f t target) =>
     f == d.name && t == d.name &&
     (match findDesc tbl d.cls target with
      | some d' => d'.getter == .memberList &&
         (match d'.setter with
-         | some (.members m) => m.fnName == target && m.decTarget == target && m.kinds.contains .list
+         | some (.members m) => m.fnName == target && m.decTarget == target && m.kinds.contains .list && m.atomic
          | _ => false)
      | none => false)
   | _ => false
